@@ -345,6 +345,14 @@ def form_at(du: DefUse, nid: int, e: ast.AST, leaf, depth: int = 5):
             if d is not None and d.value is not None and not d.sel and d.node != nid \
                     and not isinstance(d.value, (ast.FunctionDef, ast.ClassDef, ast.Lambda)):
                 return form_at(du, d.node, d.value, leaf, depth - 1)
+            # several plain definitions that all have the same form (dt_ = dt / dt_ = pt.dt)
+            ds = du.reaching(nid, x.id)
+            if len(ds) > 1 and all(dd.value is not None and not dd.sel and dd.node != nid
+                                   and not isinstance(dd.value, (ast.FunctionDef, ast.ClassDef,
+                                                                 ast.Lambda)) for dd in ds):
+                forms = [form_at(du, dd.node, dd.value, leaf, depth - 1) for dd in ds]
+                if all(f is not None for f in forms) and len({repr(f) for f in forms}) == 1:
+                    return forms[0]
         return None
     return eval_form(e, res)
 
